@@ -46,7 +46,8 @@ void CategoryFilter::parseRules(const QString &rules)
         category = QRegularExpression::escape(category);
         category.replace("\\*", ".*");
 
-        rule->category = QRegularExpression("^" + category + "$");
+        rule->category = QRegularExpression("^" + category + "\\z",
+                                            QRegularExpression::DotMatchesEverythingOption);
         rule->type = stringToQtMsgType(match.captured(2));
         rule->typeMatch = !match.captured(2).isEmpty();
         rule->enabled = match.captured(3) == "true";
